@@ -13,7 +13,8 @@ namespace {
 // ---------------------------------------------------------------- heap budget (measured, see DESIGN 5.5)
 // live + request <= HEAP_A * delivered_bytes + HEAP_B at every allocation made by the decoder
 static const long HEAP_A = 1024;         // bytes of heap per byte of input delivered so far
-static const long HEAP_B = 128 * 1024;   // constant part (structures of fixed size, scratch)
+static const long HEAP_B = 320 * 1024;   // constant part: structures of fixed size, scratch, and ONE PER fragment of the widest character type
+                                         // (X.691 fragments carry up to 64K units, asn1c reserves a fragment before reading it: 64K x 4 octets for UniversalString)
 
 // ---------------------------------------------------------------- nest templates
 static void put_len(Bytes &o, size_t len) {
